@@ -136,6 +136,12 @@ func Build[G any](options ...Option) (parser *Parser[G], err error) {
 	if err := validate(rootNode); err != nil {
 		return nil, err
 	}
+	// Union members the root does not reach are productions too (ParserForProduction can start at them).
+	for _, def := range p.unionDefs {
+		if err := validate(context.typeNodes[def.typ]); err != nil {
+			return nil, err
+		}
+	}
 	p.typeNodes = context.typeNodes
 	p.typeNodes[p.rootType] = rootNode
 	p.setCaseInsensitiveTokens()
